@@ -9,6 +9,7 @@ SInit == Init /\ hist = <<[act |-> act, last |-> last, heap |-> heap]>>
 SNext == /\ Len(hist) <= MaxLen
          /\ Next
          /\ (last' = "raise" => RandomElement(1..5) = 1)
+         /\ (act'.op \in {"LookupBase", "Restore", "AddIsotope"} /\ last' = "found" => RandomElement(1..3) = 1)
          /\ hist' = Append(hist, [act |-> act', last |-> last', heap |-> heap'])
 SSpec == SInit /\ [][SNext]_<<vars, hist>>
 EmitHist == (Len(hist) = MaxLen + 1) => PrintT("@@" \o ToJson([hist |-> hist]))
